@@ -96,7 +96,7 @@ CHECKS = {
  "C09": dict(
   category="proof",
   text=("Theorems about the Lean model of iterative_symmetry_search/ToleranceHandler for every behaviour of the attempts (Props/C09.lean): if the first attempt succeeds the returned tolerances are "
-        "exactly the requested ones; the returned tolerances are those of the last attempt and that attempt succeeded; at most MAX_HANDLER*MAX_TRIALS = 64 attempts (constants regenerated); every tried and the returned tolerance is requested*S^e with -64 <= e <= 64, i.e. positive and finite (Props/C09Bound.lean). "
+        "exactly the requested ones; the returned tolerances are those of the last attempt and that attempt succeeded; at most MAX_HANDLER*MAX_TRIALS = 64 attempts (constants regenerated); every tried and the returned tolerance is requested*S^e with -64 <= e <= 64, i.e. positive and finite (Props/C09Bound.lean); the replay function used by the S12 correspondence (recorded ToleranceHandler updates) is proved to be the same fold of ToleranceHandler::update as the model's inner loop within one handler budget (Props/C09Replay.lean). "
         "Decided on explored inputs: noisy twins (<= 5% symprec + strain) and uniformly scaled twins (1e-2..1e3) give the same number, Hall number, operation count and orbit partition as "
         "the undistorted crystal (incl. supercells and shear twins with an explicit radian tolerance just wide enough for the allowed strain), and the returned tolerances equal the requested ones, positive. noise_accept / rough_match_unique of the design are not proved."),
   design_ref="DESIGN.md §3 C09", note=PIPE_NOTE,
